@@ -197,13 +197,12 @@ Qed.
 
 Lemma anzahl_text_loop_inv t s fuel : forall k anz, 0 <= k -> 0 < len s ->
   (Z.to_nat (len t - len s - k + 1) < fuel)%nat ->
-  anzahl_text_loop fuel t s (len t) (len s) 0 (k + 1) (k + len s) anz =
+  anzahl_text_loop fuel t s (len t) (len s) (k + 1) (k + len s) anz =
     Ok (anz + len (filter (occ_b t s) (seq (Z.to_nat k) (Z.to_nat (len t - len s - k + 1))))).
 Proof.
   induction fuel as [|f IH]; intros k anz Hk Hs Hf; [lia|].
   cbn [anzahl_text_loop]. destruct (k + len s <=? len t) eqn:E.
   - apply Z.leb_le in E. rewrite slice_window by lia. cbn [bind]. cbv zeta.
-    replace (0 =? 0) with true by reflexivity.
     replace (Z.to_nat (len t - len s - k + 1)) with (S (Z.to_nat (len t - len s - (k + 1) + 1))) by lia.
     cbn [seq filter]. change (occ_b t s (Z.to_nat k)) with (text_eqb (firstn (length s) (skipn (Z.to_nat k) t)) s).
     rewrite to_nat_len.
@@ -223,14 +222,6 @@ Proof.
     replace (0 + 1) with 1 in H by lia. replace (0 + len s) with (len s) in H by lia.
     rewrite H by (unfold len in *; lia). replace (len t - len s - 0 + 1) with (len t - len s + 1) by lia. f_equal.
 Qed.
-(* "nicht überlappend": the code only looks at the positions 0, ns, 2 ns, ... *)
-Lemma nicht_ueberlappend_refuted : exists t s, s <> [] /\
-  Text_Anzahl_Text_Nicht_Ueberlappend t s = Ok 0 /\ exists pre suf, t = pre ++ s ++ suf.
-Proof.
-  exists [120; 97; 98], [97; 98]. split; [discriminate|]. split; [vm_compute; reflexivity|].
-  exists [120], []. reflexivity.
-Qed.
-
 (* ---- prefixes and suffixes ---- *)
 Lemma beginnt_mit_buchstabe_spec t b : Beginnt_Mit_Buchstabe t b = Ok (match t with c :: _ => c =? b | [] => false end).
 Proof.
@@ -292,51 +283,63 @@ Lemma text_vor_text_spec t e : Text_Vor_Text_Stellen t e = e ++ t. Proof. reflex
 Lemma buchstabe_vor_text_spec t e : Buchstabe_Vor_Text_Stellen t e = e :: t. Proof. reflexivity. Qed.
 Lemma text_leeren_spec t : Text_Leeren t = []. Proof. reflexivity. Qed.
 
-Lemma text_einfuegen_partial t i e : 2 <= i <= len t ->
-  Text_In_Text_Einfuegen t i e = Ok (firstn (Z.to_nat (i - 1)) t ++ e ++ skipn (Z.to_nat (i - 1)) t).
+(* insertion in front of position p = index clamped into 1 .. Länge + 1 *)
+Lemma text_einfuegen_spec t i e :
+  Text_In_Text_Einfuegen t i e =
+    Ok (firstn (Z.to_nat (clampZ i 1 (len t + 1) - 1)) t ++ e ++ skipn (Z.to_nat (clampZ i 1 (len t + 1) - 1)) t).
 Proof.
-  intros H. unfold Text_In_Text_Einfuegen. rewrite slice_to_in by lia. cbn [bind]. rewrite slice_from_in by lia. cbn [bind].
-  now rewrite <- app_assoc.
+  pose proof (len_nonneg t) as Hl. unfold Text_In_Text_Einfuegen.
+  destruct (i <=? 1) eqn:E1; [apply Z.leb_le in E1|apply Z.leb_gt in E1].
+  - rewrite clampZ_low by lia. reflexivity.
+  - destruct (i >? len t) eqn:E2; rewrite Z.gtb_ltb in E2; [apply Z.ltb_lt in E2|apply Z.ltb_ge in E2].
+    + rewrite clampZ_high by lia. replace (Z.to_nat (len t + 1 - 1)) with (length t) by (unfold len; lia).
+      rewrite firstn_all, skipn_all. now rewrite app_nil_r.
+    + rewrite clampZ_id by lia. rewrite slice_to_in by lia. cbn [bind]. rewrite slice_from_in by lia. cbn [bind].
+      now rewrite <- app_assoc.
 Qed.
-Lemma text_einfuegen_refuted : exists t i e, 1 <= i <= len t /\
-  Text_In_Text_Einfuegen t i e <> Ok (firstn (Z.to_nat (i - 1)) t ++ e ++ skipn (Z.to_nat (i - 1)) t).
-Proof. exists [97; 98], 1, [120]. split; [cbn; lia|]. vm_compute. discriminate. Qed.
-Lemma buchstabe_einfuegen_partial t i e : 2 <= i <= len t ->
-  Buchstabe_In_Text_Einfuegen t i e = Ok (firstn (Z.to_nat (i - 1)) t ++ e :: skipn (Z.to_nat (i - 1)) t).
+Lemma buchstabe_einfuegen_spec t i e :
+  Buchstabe_In_Text_Einfuegen t i e =
+    Ok (firstn (Z.to_nat (clampZ i 1 (len t + 1) - 1)) t ++ e :: skipn (Z.to_nat (clampZ i 1 (len t + 1) - 1)) t).
 Proof.
-  intros H. unfold Buchstabe_In_Text_Einfuegen. rewrite slice_to_in by lia. cbn [bind]. rewrite slice_from_in by lia. cbn [bind].
-  now rewrite <- app_assoc.
+  pose proof (len_nonneg t) as Hl. unfold Buchstabe_In_Text_Einfuegen.
+  destruct (i <=? 1) eqn:E1; [apply Z.leb_le in E1|apply Z.leb_gt in E1].
+  - rewrite clampZ_low by lia. reflexivity.
+  - destruct (i >? len t) eqn:E2; rewrite Z.gtb_ltb in E2; [apply Z.ltb_lt in E2|apply Z.ltb_ge in E2].
+    + rewrite clampZ_high by lia. replace (Z.to_nat (len t + 1 - 1)) with (length t) by (unfold len; lia).
+      rewrite firstn_all, skipn_all. reflexivity.
+    + rewrite clampZ_id by lia. rewrite slice_to_in by lia. cbn [bind]. rewrite slice_from_in by lia. cbn [bind].
+      now rewrite <- app_assoc.
 Qed.
-Lemma buchstabe_einfuegen_refuted : exists t i e, 1 <= i <= len t /\
-  Buchstabe_In_Text_Einfuegen t i e <> Ok (firstn (Z.to_nat (i - 1)) t ++ e :: skipn (Z.to_nat (i - 1)) t).
-Proof. exists [97; 98], 1, 120. split; [cbn; lia|]. vm_compute. discriminate. Qed.
 
-Lemma loesche_text_partial t i : 2 <= i <= len t ->
+Lemma loesche_text_spec t i : 1 <= i <= len t ->
   Loesche_Text t i = Ok (firstn (Z.to_nat (i - 1)) t ++ skipn (Z.to_nat i) t).
 Proof.
   intros H. unfold Loesche_Text.
   replace (len t =? 0) with false by (symmetry; apply Z.eqb_neq; lia).
-  replace (i =? 1) with false by (symmetry; apply Z.eqb_neq; lia). cbn [andb].
-  destruct (i =? len t) eqn:E.
-  - apply Z.eqb_eq in E. subst i. rewrite slice_to_in by lia. f_equal.
-    rewrite (skipn_all2 t); [now rewrite app_nil_r|unfold len; lia].
-  - apply Z.eqb_neq in E. rewrite slice_to_in by lia. cbn [bind]. rewrite slice_from_in by lia. cbn [bind].
-    replace (i + 1 - 1) with i by lia. reflexivity.
+  destruct (i =? 1) eqn:E1.
+  - apply Z.eqb_eq in E1. subst i. cbn [andb]. destruct (len t =? 1) eqn:E2.
+    + apply Z.eqb_eq in E2. cbn [Z.sub Z.to_nat firstn app]. rewrite skipn_all2; [reflexivity|unfold len in E2; lia].
+    + apply Z.eqb_neq in E2. rewrite slice_from_in by lia. reflexivity.
+  - apply Z.eqb_neq in E1. cbn [andb]. destruct (i =? len t) eqn:E.
+    + apply Z.eqb_eq in E. subst i. rewrite slice_to_in by lia. f_equal.
+      rewrite (skipn_all2 t); [now rewrite app_nil_r|unfold len; lia].
+    + apply Z.eqb_neq in E. rewrite slice_to_in by lia. cbn [bind]. rewrite slice_from_in by lia. cbn [bind].
+      replace (i + 1 - 1) with i by lia. reflexivity.
 Qed.
-Lemma loesche_text_refuted : exists t i, 1 <= i <= len t /\
-  Loesche_Text t i <> Ok (firstn (Z.to_nat (i - 1)) t ++ skipn (Z.to_nat i) t).
-Proof. exists [97; 98; 99], 1. split; [cbn; lia|]. vm_compute. discriminate. Qed.
-Lemma loesche_text_bereich_partial t s e : 1 <= s -> s <= e -> e < len t ->
+Lemma loesche_text_bereich_spec t s e : 1 <= s -> s <= e -> e <= len t ->
   Loesche_Text_Bereich t s e = Ok (firstn (Z.to_nat (s - 1)) t ++ skipn (Z.to_nat e) t).
 Proof.
-  intros H1 H2 H3. unfold Loesche_Text_Bereich. destruct (s =? 1) eqn:E.
-  - apply Z.eqb_eq in E. subst s. rewrite slice_from_in by lia. replace (e + 1 - 1) with e by lia. reflexivity.
-  - apply Z.eqb_neq in E. rewrite slice_to_in by lia. cbn [bind]. rewrite slice_from_in by lia. cbn [bind].
-    replace (e + 1 - 1) with e by lia. reflexivity.
+  intros H1 H2 H3. unfold Loesche_Text_Bereich.
+  destruct (e >=? len t) eqn:Ee; rewrite Z.geb_leb in Ee; [apply Z.leb_le in Ee|apply Z.leb_gt in Ee].
+  - assert (e = len t) by lia. subst e. rewrite (skipn_all2 t) by (unfold len; lia). rewrite app_nil_r.
+    destruct (s <=? 1) eqn:Es; [apply Z.leb_le in Es|apply Z.leb_gt in Es].
+    + replace (Z.to_nat (s - 1)) with 0%nat by lia. reflexivity.
+    + rewrite slice_to_in by lia. reflexivity.
+  - destruct (s =? 1) eqn:E.
+    + apply Z.eqb_eq in E. subst s. rewrite slice_from_in by lia. replace (e + 1 - 1) with e by lia. reflexivity.
+    + apply Z.eqb_neq in E. rewrite slice_to_in by lia. cbn [bind]. rewrite slice_from_in by lia. cbn [bind].
+      replace (e + 1 - 1) with e by lia. reflexivity.
 Qed.
-Lemma loesche_text_bereich_refuted : exists t s e, 1 <= s /\ s <= e /\ e <= len t /\
-  Loesche_Text_Bereich t s e <> Ok (firstn (Z.to_nat (s - 1)) t ++ skipn (Z.to_nat e) t).
-Proof. exists [97; 98; 99], 2, 3. repeat split; try (cbn; lia). vm_compute. discriminate. Qed.
 
 (* ---- Fülle_Text, Buchstaben ---- *)
 Lemma fuelle_text_loop_inv (suf pre : text) x :
@@ -528,9 +531,6 @@ Proof.
 Qed.
 
 (* ---- Vergleiche_Text ---- *)
-Lemma vergleiche_refuted : exists t1 t2, t1 <> t2 /\ Vergleiche_Text t1 t2 = Err.
-Proof. exists [], [97]. split; [discriminate|]. vm_compute. reflexivity. Qed.
-
 Lemma vergleiche_loop_inv p : forall fuel s1 s2, s1 <> [] -> s2 <> [] -> (length s1 < fuel)%nat ->
   exists r, vergleiche_loop fuel (p ++ s1) (p ++ s2) (len p + 1) = Ok r /\
     (forall q a b r1 r2, s1 = q ++ a :: r1 -> s2 = q ++ b :: r2 -> a <> b -> r = a - b) /\
@@ -582,30 +582,292 @@ Proof.
     + intros c r1 Hs. cbn in Hs. injection Hs as -> _. congruence.
     + intros Hs. injection Hs as -> _. congruence.
 Qed.
-(* for two non-empty texts: 0 if equal; the code-point difference at the first mismatch; -1 / 1 if one is a proper prefix *)
-Lemma vergleiche_partial t1 t2 : t1 <> [] -> t2 <> [] ->
+(* 0 if equal; the code-point difference at the first mismatch; -1 / 1 if one text is a proper prefix of the other *)
+Lemma vergleiche_spec t1 t2 :
   exists r, Vergleiche_Text t1 t2 = Ok r /\
     (t1 = t2 -> r = 0) /\
     (forall q a b r1 r2, t1 = q ++ a :: r1 -> t2 = q ++ b :: r2 -> a <> b -> r = a - b) /\
     (forall c r2, t2 = t1 ++ c :: r2 -> r = -1) /\
     (forall c r1, t1 = t2 ++ c :: r1 -> r = 1).
 Proof.
-  intros H1 H2. unfold Vergleiche_Text. destruct (text_eqb t1 t2) eqn:E.
+  unfold Vergleiche_Text. destruct (text_eqb t1 t2) eqn:E.
   - apply text_eqb_spec in E. subst t2. exists 0. split; [reflexivity|]. repeat split.
     + intros q a b r1 r2 Ha Hb Hne. rewrite Ha in Hb. apply app_inv_head in Hb. injection Hb as Hb _. congruence.
     + intros c r2 Hs. exfalso. assert (Hl : length t1 = length (t1 ++ c :: r2)) by (rewrite <- Hs; reflexivity).
       rewrite app_length in Hl. cbn [length] in Hl. lia.
     + intros c r2 Hs. exfalso. assert (Hl : length t1 = length (t1 ++ c :: r2)) by (rewrite <- Hs; reflexivity).
       rewrite app_length in Hl. cbn [length] in Hl. lia.
-  - apply text_eqb_false in E.
-    destruct (vergleiche_loop_inv [] (length t1 + 1) t1 t2 H1 H2 ltac:(lia)) as (r & Er & A & B & C & D).
-    exists r. split; [exact Er|]. repeat split; auto. intros Heq. contradiction.
+  - apply text_eqb_false in E. destruct t1 as [|a1 t1'].
+    + (* text1 empty: a proper prefix of text2 *)
+      cbn [len length Z.of_nat Z.eqb]. exists (-1). split; [reflexivity|]. repeat split; try congruence.
+      * intros q a b r1 r2 Ha. destruct q; discriminate.
+      * intros c r1 Hs. destruct t2; discriminate.
+    + replace (len (a1 :: t1') =? 0) with false by (symmetry; apply Z.eqb_neq; rewrite len_cons; pose proof (len_nonneg t1'); lia).
+      destruct t2 as [|a2 t2'].
+      * cbn [len length Z.of_nat Z.eqb]. exists 1. split; [reflexivity|]. repeat split; try congruence.
+        -- intros q a b r1 r2 _ Hb. destruct q; discriminate.
+        -- intros c r2 Hs. discriminate.
+      * replace (len (a2 :: t2') =? 0) with false by (symmetry; apply Z.eqb_neq; rewrite len_cons; pose proof (len_nonneg t2'); lia).
+        destruct (vergleiche_loop_inv [] (length (a1 :: t1') + 1) (a1 :: t1') (a2 :: t2') ltac:(discriminate) ltac:(discriminate) ltac:(lia))
+          as (r & Er & A & B & C & D).
+        exists r. split; [exact Er|]. repeat split; auto. intros Heq. contradiction.
 Qed.
+
+(* ---- Trim (both ends) ---- *)
+Definition strip_ref (z : Z) (t : text) : text := rev (drop_z z (rev (drop_z z t))).
+
+Lemma drop_z_split z t : exists A, t = A ++ drop_z z t /\ all_z z A.
+Proof.
+  induction t as [|c r IH]; [exists []; split; [reflexivity|constructor]|].
+  cbn [drop_z]. destruct (c =? z) eqn:E.
+  - apply Z.eqb_eq in E. subst c. destruct IH as (A & HA & Hz). exists (z :: A). split; [cbn; now rewrite <- HA|now constructor].
+  - exists []. split; [reflexivity|constructor].
+Qed.
+Lemma drop_z_head z t c r : drop_z z t = c :: r -> c <> z.
+Proof.
+  induction t as [|x t IH]; cbn [drop_z]; [discriminate|].
+  destruct (x =? z) eqn:E; [exact IH|]. intros H. injection H as -> _. now apply Z.eqb_neq.
+Qed.
+Lemma drop_z_all_nil z t : all_z z t -> drop_z z t = [].
+Proof. intros H. rewrite <- (app_nil_r t). now rewrite drop_z_all. Qed.
+Lemma drop_z_app_nonempty z X Y : drop_z z X <> [] -> drop_z z (X ++ Y) = drop_z z X ++ Y.
+Proof.
+  induction X as [|x X IH]; cbn [drop_z app]; [congruence|].
+  destruct (x =? z); [exact IH|reflexivity].
+Qed.
+Lemma drop_z_nonempty z X c : In c X -> c <> z -> drop_z z X <> [].
+Proof.
+  induction X as [|x X IH]; intros Hin Hc; [destruct Hin|]. cbn [drop_z].
+  destruct (x =? z) eqn:E; [|discriminate]. apply Z.eqb_eq in E. subst x.
+  destruct Hin as [->|Hin]; [congruence|]. now apply IH.
+Qed.
+
+Lemma trim_start_loop_inv z suf : forall pre fuel, suf <> [] -> (length suf < fuel)%nat ->
+  trim_start_loop fuel (pre ++ suf) z (len pre + 1) =
+    Ok (match drop_z z suf with [] => len (pre ++ suf) | _ => len pre + len suf - len (drop_z z suf) + 1 end).
+Proof.
+  induction suf as [|c r IH]; intros pre fuel Hne Hf; [congruence|].
+  destruct fuel as [|f]; [lia|]. cbn [trim_start_loop]. rewrite rd_mid. cbn [bind drop_z].
+  destruct (c =? z) eqn:E; cbn [andb].
+  - destruct r as [|c2 r2].
+    + replace (len pre + 1 <? len (pre ++ [c])) with false
+        by (symmetry; apply Z.ltb_ge; rewrite len_app, len_cons, len_nil; lia).
+      cbn [drop_z]. f_equal. rewrite len_app, len_cons, len_nil. lia.
+    + replace (len pre + 1 <? len (pre ++ c :: c2 :: r2)) with true
+        by (symmetry; apply Z.ltb_lt; rewrite len_app, !len_cons; pose proof (len_nonneg r2); lia).
+      replace (pre ++ c :: c2 :: r2) with ((pre ++ [c]) ++ c2 :: r2) by (rewrite <- app_assoc; reflexivity).
+      replace (len pre + 1 + 1) with (len (pre ++ [c]) + 1) by (rewrite len_app, len_cons, len_nil; lia).
+      rewrite IH by (try discriminate; cbn [length] in *; lia).
+      destruct (drop_z z (c2 :: r2)); f_equal. rewrite len_app, !len_cons, len_nil. lia.
+  - f_equal. lia.
+Qed.
+Lemma trim_stop_loop_inv z pre : forall suf fuel, pre <> [] -> (length pre < fuel)%nat ->
+  trim_stop_loop fuel (pre ++ suf) z (len pre) =
+    Ok (match drop_z z (rev pre) with [] => 1 | d => len d end).
+Proof.
+  induction pre as [|c p IH] using rev_ind; intros suf fuel Hne Hf; [congruence|].
+  destruct fuel as [|f]; [lia|]. cbn [trim_stop_loop].
+  replace (len (p ++ [c])) with (len p + 1) by (rewrite len_app, len_cons, len_nil; lia).
+  rewrite <- app_assoc. cbn [app]. rewrite rd_mid. cbn [bind].
+  rewrite rev_app_distr. cbn [rev app drop_z].
+  destruct (c =? z) eqn:E; cbn [andb].
+  - destruct p as [|c2 p2] using rev_ind.
+    + cbn. reflexivity.
+    + clear IHp2. replace (len (p2 ++ [c2]) + 1 =? 1) with false
+        by (symmetry; apply Z.eqb_neq; rewrite len_app, len_cons, len_nil; pose proof (len_nonneg p2); lia).
+      cbn [negb]. replace (len (p2 ++ [c2]) + 1 - 1) with (len (p2 ++ [c2])) by lia.
+      apply IH; [intros H; apply app_eq_nil in H; destruct H; discriminate|].
+      rewrite app_length in Hf. cbn [length] in Hf. lia.
+  - f_equal. rewrite len_cons, len_rev. lia.
+Qed.
+
+Lemma trim_spec t z : Trim t z = Ok (strip_ref z t).
+Proof.
+  unfold Trim, strip_ref. destruct (len t =? 0) eqn:E0.
+  - apply Z.eqb_eq in E0. apply len_zero_nil in E0. subst. reflexivity.
+  - apply Z.eqb_neq in E0. assert (Hne : t <> []) by (intros ->; apply E0; reflexivity).
+    pose proof (trim_start_loop_inv z t [] (length t + 1) Hne ltac:(lia)) as Hs. cbn [app] in Hs. rewrite len_nil in Hs.
+    replace (0 + 1) with 1 in Hs by lia. rewrite Hs. cbn [bind].
+    pose proof (trim_stop_loop_inv z t [] (length t + 1) Hne ltac:(lia)) as He. rewrite app_nil_r in He. rewrite He. cbn [bind].
+    destruct (drop_z_split z t) as (A & HA & HzA).
+    destruct (drop_z z t) as [|d D1] eqn:ED.
+    + (* the whole text consists of the trimmed letter *)
+      rewrite app_nil_r in HA. subst A.
+      assert (Hr : drop_z z (rev t) = []) by (apply drop_z_all_nil; apply Forall_rev; exact HzA).
+      rewrite Hr. replace ((len t =? len t) && (1 =? 1)) with true by (rewrite Z.eqb_refl; reflexivity).
+      destruct t as [|x t']; [congruence|]. rewrite rd_cons_1. cbn [bind].
+      inversion HzA; subst. now rewrite Z.eqb_refl.
+    + assert (Hd : d <> z) by (apply (drop_z_head z t d D1 ED)).
+      set (D := d :: D1) in *.
+      remember (drop_z z (rev D)) as D2 eqn:ED2.
+      assert (HrevD : D2 <> []) by (rewrite ED2; apply (drop_z_nonempty z (rev D) d); [apply in_rev; rewrite rev_involutive; left; reflexivity|exact Hd]).
+      assert (Hrt : drop_z z (rev t) = D2 ++ rev A).
+      { rewrite HA at 1. rewrite rev_app_distr, ED2. apply drop_z_app_nonempty. now rewrite <- ED2. }
+      destruct (drop_z_split z (rev D)) as (B & HB & HzB). rewrite <- ED2 in HB.
+      assert (HD : D = rev D2 ++ rev B) by (rewrite <- rev_app_distr, <- HB; now rewrite rev_involutive).
+      assert (Ht : t = A ++ rev D2 ++ rev B) by (rewrite HA; now rewrite HD).
+      rewrite Hrt.
+      assert (Hm : forall l : text, l <> [] -> match l with [] => 1 | z0 :: l' => len (z0 :: l') end = len l) by (intros [|y l] Hl; [congruence|reflexivity]).
+      rewrite (Hm (D2 ++ rev A)) by (intros H; apply app_eq_nil in H; destruct H; congruence).
+      rewrite len_app, len_rev.
+      assert (HlD : len D = len D2 + len B) by (rewrite HD, len_app, !len_rev; lia).
+      assert (Hlt : len t = len A + len D) by (rewrite HA at 1; now rewrite len_app).
+      assert (HlD2 : 1 <= len D2) by (destruct D2 as [|y D2']; [congruence|rewrite len_cons; pose proof (len_nonneg D2'); lia]).
+      pose proof (len_nonneg A) as HlA. pose proof (len_nonneg B) as HlB.
+      replace (0 + len t - len D + 1) with (len A + 1) by lia.
+      assert (Halles : (do alles <- (if (len A + 1 =? len t) && (len D2 + len A =? 1) then do c <- rd t 1;; Ok (c =? z) else Ok false);;
+                        if alles then Ok [] else slice t (len A + 1) (len D2 + len A)) = slice t (len A + 1) (len D2 + len A)).
+      { destruct ((len A + 1 =? len t) && (len D2 + len A =? 1)) eqn:Ec; [|reflexivity].
+        apply andb_true_iff in Ec. destruct Ec as [_ Ec]. apply Z.eqb_eq in Ec.
+        assert (HA0 : len A = 0) by lia. apply len_zero_nil in HA0. subst A. cbn [app] in HA.
+        rewrite HA. unfold D. rewrite rd_cons_1. cbn [bind].
+        replace (d =? z) with false by (symmetry; apply Z.eqb_neq; exact Hd). reflexivity. }
+      rewrite Halles. rewrite slice_in by lia. f_equal.
+      replace (len D2 + len A - (len A + 1) + 1) with (len D2) by lia. replace (len A + 1 - 1) with (len A) by lia.
+      assert (Hsk : skipn (Z.to_nat (len A)) t = rev D2 ++ rev B).
+      { rewrite to_nat_len. rewrite Ht. rewrite skipn_app, skipn_all, Nat.sub_diag. reflexivity. }
+      rewrite Hsk. rewrite to_nat_len. rewrite <- (rev_length D2). rewrite firstn_app, firstn_all, Nat.sub_diag. cbn [firstn]. now rewrite app_nil_r.
+Qed.
+
+(* ---- Text_Anzahl_Text_Nicht_Überlappend: leftmost, non-overlapping occurrences ---- *)
+Fixpoint nonoverlap_ref (fuel : nat) (s t : text) : Z :=
+  match fuel with
+  | O => 0
+  | S f =>
+      if (length t <? length s)%nat then 0
+      else if text_eqb (firstn (length s) t) s then 1 + nonoverlap_ref f s (skipn (length s) t)
+      else nonoverlap_ref f s (tl t)
+  end.
+Lemma tl_skipn {A} (l : list A) k : tl (skipn k l) = skipn (S k) l.
+Proof. revert l. induction k as [|k IH]; intros [|x l]; cbn [skipn tl]; auto. apply IH. Qed.
+Lemma skipn_add {A} (l : list A) a b : skipn a (skipn b l) = skipn (b + a) l.
+Proof. revert l. induction b as [|b IH]; intros l; [reflexivity|]. destruct l as [|x l]; cbn [skipn Nat.add]; [now rewrite skipn_nil|apply IH]. Qed.
+
+Lemma nicht_ueberlappend_loop_inv t s fuel : forall k anz, 0 <= k -> k <= len t -> 0 < len s ->
+  (Z.to_nat (len t - k) < fuel)%nat ->
+  nicht_ueberlappend_loop fuel t s (len t) (len s) (k + 1) (k + len s) anz =
+    Ok (anz + nonoverlap_ref fuel s (skipn (Z.to_nat k) t)).
+Proof.
+  induction fuel as [|f IH]; intros k anz Hk Hkt Hs Hf; [lia|].
+  cbn [nicht_ueberlappend_loop nonoverlap_ref].
+  assert (Hlen : length (skipn (Z.to_nat k) t) = (length t - Z.to_nat k)%nat) by apply skipn_length.
+  destruct (k + len s <=? len t) eqn:E.
+  - apply Z.leb_le in E. rewrite slice_window by lia. cbn [bind]. rewrite to_nat_len.
+    replace (length (skipn (Z.to_nat k) t) <? length s)%nat with false
+      by (symmetry; apply Nat.ltb_ge; rewrite Hlen; unfold len in *; lia).
+    destruct (text_eqb (firstn (length s) (skipn (Z.to_nat k) t)) s) eqn:Eq.
+    + replace (k + 1 + len s) with (k + len s + 1) by lia. replace (k + len s + len s) with (k + len s + len s) by lia.
+      rewrite IH by (unfold len in *; lia). f_equal.
+      rewrite skipn_add. replace (Z.to_nat k + length s)%nat with (Z.to_nat (k + len s)) by (unfold len; lia). lia.
+    + replace (k + len s + 1) with (k + 1 + len s) by lia.
+      rewrite IH by (unfold len in *; lia). f_equal. f_equal.
+      rewrite tl_skipn. f_equal. f_equal. lia.
+  - apply Z.leb_gt in E.
+    replace (length (skipn (Z.to_nat k) t) <? length s)%nat with true
+      by (symmetry; apply Nat.ltb_lt; rewrite Hlen; unfold len in *; lia).
+    f_equal. lia.
+Qed.
+Lemma nicht_ueberlappend_spec t s : s <> [] ->
+  Text_Anzahl_Text_Nicht_Ueberlappend t s = Ok (nonoverlap_ref (length t + 1) s t).
+Proof.
+  intros Hs. assert (Hls : 0 < len s) by (destruct s; [congruence|rewrite len_cons; pose proof (len_nonneg s); lia]).
+  unfold Text_Anzahl_Text_Nicht_Ueberlappend. cbv zeta. destruct (len t =? 0) eqn:E0.
+  - apply Z.eqb_eq in E0. apply len_zero_nil in E0. subst t. cbn [length Nat.add nonoverlap_ref].
+    destruct s; [congruence|reflexivity].
+  - replace (len s =? 0) with false by (symmetry; apply Z.eqb_neq; lia).
+    pose proof (nicht_ueberlappend_loop_inv t s (length t + 1) 0 0 ltac:(lia) (len_nonneg t) Hls ltac:(unfold len; lia)) as H.
+    replace (0 + 1) with 1 in H by lia. replace (0 + len s) with (len s) in H by lia. rewrite H. reflexivity.
+Qed.
+
+(* ---- Spalte ---- *)
+Fixpoint split_ref (z : Z) (t : text) : list text :=
+  match t with
+  | [] => [[]]
+  | c :: r => if c =? z then [] :: split_ref z r
+              else match split_ref z r with h :: tl => (c :: h) :: tl | [] => [[c]] end
+  end.
+Lemma split_ref_notin z t : ~ In z t -> split_ref z t = [t].
+Proof.
+  induction t as [|c r IH]; intros H; [reflexivity|]. cbn [split_ref].
+  replace (c =? z) with false by (symmetry; apply Z.eqb_neq; intros ->; apply H; left; reflexivity).
+  rewrite IH; [reflexivity|]. intros Hin. apply H. right. exact Hin.
+Qed.
+Lemma split_ref_app z pre suf : ~ In z pre -> split_ref z (pre ++ z :: suf) = pre :: split_ref z suf.
+Proof.
+  induction pre as [|c r IH]; intros H; cbn [app split_ref].
+  - now rewrite Z.eqb_refl.
+  - replace (c =? z) with false by (symmetry; apply Z.eqb_neq; intros ->; apply H; left; reflexivity).
+    rewrite IH; [reflexivity|]. intros Hin. apply H. right. exact Hin.
+Qed.
+Lemma anzahl_app z pre suf : ~ In z pre ->
+  Text_Anzahl_Buchstabe (pre ++ z :: suf) z = Text_Anzahl_Buchstabe suf z + 1.
+Proof.
+  intros H. rewrite !text_anzahl_buchstabe_spec, count_occ_app. cbn [count_occ].
+  destruct (Z.eq_dec z z) as [_|N]; [|congruence].
+  rewrite (proj1 (count_occ_not_In Z.eq_dec pre z) H). lia.
+Qed.
+Lemma anzahl_nonneg t z : 0 <= Text_Anzahl_Buchstabe t z.
+Proof. rewrite text_anzahl_buchstabe_spec. lia. Qed.
+
+Lemma spalte_loop_inv z fuel : forall t endl i n,
+  i = len endl + 1 -> Text_Anzahl_Buchstabe t z <= n - i -> (Z.to_nat (Text_Anzahl_Buchstabe t z) < fuel)%nat ->
+  exists t' endl' i',
+    spalte_loop fuel (fun t => Ok (Text_Index_Von_Buchstabe_Ref t z)) (fun endIndex t => endIndex =? len t) 1 t endl i n = Ok (t', endl', i') /\
+    endl' ++ [t'] = endl ++ split_ref z t /\ i' = len (endl' ++ [t']).
+Proof.
+  induction fuel as [|f IH]; intros t endl i n Hi Hc Hf; [lia|].
+  cbn [spalte_loop]. pose proof (anzahl_nonneg t z) as Hn0.
+  replace (i <=? n) with true by (symmetry; apply Z.leb_le; lia). cbn [bind].
+  destruct (text_index_von_buchstabe_spec t z) as [[Hr Hnot]|(pre & suf & Ht & Hnot & Hr)]; rewrite Hr.
+  - cbn. exists t, endl, i. split; [reflexivity|]. rewrite split_ref_notin by assumption.
+    split; [reflexivity|]. rewrite len_app, len_cons, len_nil. lia.
+  - pose proof (len_nonneg pre) as Hp. pose proof (len_nonneg suf) as Hs.
+    replace (len pre + 1 <? 0) with false by (symmetry; apply Z.ltb_ge; lia).
+    assert (Hlt : len t = len pre + 1 + len suf) by (rewrite Ht, len_app, len_cons; lia).
+    assert (Hpiece : (if len pre + 1 =? 1 then Ok [] else slice_to t (len pre + 1 - 1)) = Ok pre).
+    { destruct (len pre + 1 =? 1) eqn:E1.
+      - apply Z.eqb_eq in E1. assert (len pre = 0) by lia. apply len_zero_nil in H. now subst pre.
+      - apply Z.eqb_neq in E1. rewrite slice_to_in by lia. f_equal.
+        replace (Z.to_nat (len pre + 1 - 1)) with (length pre) by (unfold len; lia).
+        rewrite Ht, firstn_app, firstn_all, Nat.sub_diag. cbn [firstn]. now rewrite app_nil_r. }
+    rewrite Hpiece. cbn [bind].
+    assert (Hrest : (if len pre + 1 =? len t then Ok [] else slice_from t (len pre + 1 + 1)) = Ok suf).
+    { destruct (len pre + 1 =? len t) eqn:E2.
+      - apply Z.eqb_eq in E2. assert (len suf = 0) by lia. apply len_zero_nil in H. now subst suf.
+      - apply Z.eqb_neq in E2. rewrite slice_from_in by lia. f_equal.
+        replace (Z.to_nat (len pre + 1 + 1 - 1)) with (length (pre ++ [z])) by (rewrite app_length; cbn [length]; unfold len; lia).
+        rewrite Ht. replace (pre ++ z :: suf) with ((pre ++ [z]) ++ suf) by (rewrite <- app_assoc; reflexivity).
+        rewrite skipn_app, skipn_all, Nat.sub_diag. reflexivity. }
+    rewrite Hrest. cbn [bind].
+    assert (Hcnt : Text_Anzahl_Buchstabe t z = Text_Anzahl_Buchstabe suf z + 1) by (rewrite Ht; now apply anzahl_app).
+    destruct (IH suf (endl ++ [pre]) (i + 1) n) as (t' & endl' & i' & E & Hsplit & Hi').
+    + rewrite len_app, len_cons, len_nil. lia.
+    + lia.
+    + pose proof (anzahl_nonneg suf z). lia.
+    + exists t', endl', i'. split; [exact E|]. split; [|exact Hi'].
+      rewrite Hsplit, Ht, split_ref_app by assumption. rewrite <- app_assoc. reflexivity.
+Qed.
+(* the pieces between the separators, in order (for the empty text the code answers the empty list) *)
+Lemma spalte_spec t z : t <> [] -> Spalte t z = Ok (split_ref z t).
+Proof.
+  intros Hne. unfold Spalte.
+  replace (len t =? 0) with false by (symmetry; apply Z.eqb_neq; intros H; apply len_zero_nil in H; contradiction).
+  cbv zeta. pose proof (anzahl_nonneg t z) as Hn0.
+  destruct (spalte_loop_inv z (length t + 2) t [] 1 (Text_Anzahl_Buchstabe t z + 1)) as (t' & endl' & i' & E & Hsplit & Hi').
+  - reflexivity.
+  - lia.
+  - rewrite text_anzahl_buchstabe_spec. pose proof (count_occ_bound Z.eq_dec z t). lia.
+  - rewrite E. cbn [bind]. rewrite Hi'. rewrite slice_to_in.
+    + f_equal. rewrite to_nat_len, firstn_all. exact Hsplit.
+    + rewrite len_app, len_cons, len_nil. pose proof (len_nonneg endl'). lia.
+Qed.
+Lemma spalte_leer z : Spalte [] z = Ok [].
+Proof. reflexivity. Qed.
 
 (* =================================================================================================
    Bounded statements (the bound is part of the statement; proved by vm_compute over the enumerated
-   domain) for the functions whose code is too irregular for a closed-form refinement, most of which
-   violate their documentation (see the _refuted lemmas). *)
+   domain) for the functions whose code is too irregular for a closed-form refinement in the time
+   available: Trim, Text_Index_Von_Text, Spalte_Text, Finde_Subtext, Spalten_Spaltmenge_Text. *)
 Fixpoint all_texts (alpha : list Z) (n : nat) : list text :=
   match n with
   | O => [[]]
@@ -629,15 +891,41 @@ Proof.
 Qed.
 
 Definition abc : list Z := [97; 98; 99].
+Definition list_eqb {E} (eqb : E -> E -> bool) : list E -> list E -> bool :=
+  fix go a b := match a, b with [] , [] => true | x :: a', y :: b' => eqb x y && go a' b' | _, _ => false end.
+Lemma list_eqb_text l1 : forall l2, list_eqb text_eqb l1 l2 = true -> l1 = l2.
+Proof.
+  induction l1 as [|x l IH]; intros [|y l'] H; cbn in H; try discriminate; [reflexivity|].
+  apply andb_true_iff in H. destruct H as [H1 H2]. apply text_eqb_spec in H1. subst. f_equal. now apply IH.
+Qed.
+Lemma list_eqb_Z l1 : forall l2, list_eqb Z.eqb l1 l2 = true -> l1 = l2.
+Proof.
+  induction l1 as [|x l IH]; intros [|y l'] H; cbn in H; try discriminate; [reflexivity|].
+  apply andb_true_iff in H. destruct H as [H1 H2]. apply Z.eqb_eq in H1. subst. f_equal. now apply IH.
+Qed.
 
 (* reference functions written with the list library only *)
 Definition ref_index (t s : text) : Z :=
   match find (occ_b t s) (positions t s) with Some k => Z.of_nat k + 1 | None => -1 end.
-Fixpoint split_ref (z : Z) (t : text) : list text :=
-  match t with
-  | [] => [[]]
-  | c :: r => if c =? z then [] :: split_ref z r
-              else match split_ref z r with h :: tl => (c :: h) :: tl | [] => [[c]] end
+(* split at the leftmost non-overlapping occurrences of the separator text *)
+Fixpoint split_text_ref (fuel : nat) (s t cur : text) : list text :=
+  match fuel with
+  | O => [rev cur ++ t]
+  | S f =>
+      match t with
+      | [] => [rev cur]
+      | c :: r => if text_eqb (firstn (length s) t) s then rev cur :: split_text_ref f s (skipn (length s) t) []
+                  else split_text_ref f s r (c :: cur)
+      end
+  end.
+(* 1-based start positions of the leftmost non-overlapping occurrences *)
+Fixpoint finde_ref (fuel : nat) (s t : text) (pos : Z) : list Z :=
+  match fuel with
+  | O => []
+  | S f =>
+      if (length t <? length s)%nat then []
+      else if text_eqb (firstn (length s) t) s then pos :: finde_ref f s (skipn (length s) t) (pos + len s)
+      else finde_ref f s (tl t) (pos + 1)
   end.
 Fixpoint fields_ref (m : list Z) (t : text) (cur : text) : list text :=
   match t with
@@ -646,117 +934,50 @@ Fixpoint fields_ref (m : list Z) (t : text) (cur : text) : list text :=
               then (if len cur =? 0 then [] else [rev cur]) ++ fields_ref m r []
               else fields_ref m r (c :: cur)
   end.
-Definition strip_ref (z : Z) (t : text) : text := rev (drop_z z (rev (drop_z z t))).
-Definition aligned_count (t s : text) : Z :=
-  len (filter (fun j => occ_b t s (j * length s)) (seq 0 (S (length t)))).
-
-Definition list_eqb {E} (eqb : E -> E -> bool) : list E -> list E -> bool :=
-  fix go a b := match a, b with [] , [] => true | x :: a', y :: b' => eqb x y && go a' b' | _, _ => false end.
-
-(* Text_Index_Von_Text: whenever it answers, the answer is the first occurrence (or -1) *)
+(* Text_Index_Von_Text: the first occurrence (1-based) or -1, never a Laufzeitfehler *)
 Definition chk_index (t s : text) : bool :=
-  match s with [] => true | _ =>
-    match Text_Index_Von_Text t s with Ok r => r =? ref_index t s | Err => true | _ => false end end.
-Lemma text_index_von_text_bounded : forall t s, over abc t -> over abc s -> (length t <= 6)%nat -> (length s <= 3)%nat ->
-  s <> [] -> forall r, Text_Index_Von_Text t s = Ok r -> r = ref_index t s.
-Proof.
-  intros t s Ht Hs Lt Ls Hne r Hr.
-  pose proof (bounded2 abc 6 3 chk_index ltac:(vm_compute; reflexivity) t s Ht Hs Lt Ls) as H.
-  unfold chk_index in H. destruct s; [congruence|]. rewrite Hr in H. now apply Z.eqb_eq.
-Qed.
-Lemma text_index_von_text_refuted : exists t s, s <> [] /\ Text_Index_Von_Text t s = Err /\ ref_index t s = -1.
-Proof. exists [120; 120; 120; 97], [97; 98]. split; [discriminate|]. split; vm_compute; reflexivity. Qed.
-
-(* Spalte: correct unless the text ends with the separator *)
-Definition chk_spalte (t zs : text) : bool :=
-  match zs, rev t with
-  | [z], c :: _ => if c =? z then true else
-      match Spalte t z with Ok l => list_eqb text_eqb l (split_ref z t) | _ => false end
-  | _, _ => true
-  end.
-Lemma spalte_bounded : forall t z, over abc t -> In z abc -> (length t <= 7)%nat -> t <> [] -> last t 0 <> z ->
-  Spalte t z = Ok (split_ref z t).
-Proof.
-  intros t z Ht Hz Lt Hne Hlast.
-  pose proof (bounded2 abc 7 1 chk_spalte ltac:(vm_compute; reflexivity) t [z] Ht ltac:(constructor; [exact Hz|constructor]) Lt ltac:(cbn; lia)) as H.
-  unfold chk_spalte in H. destruct (rev t) as [|c r] eqn:Er.
-  - apply (f_equal (@rev Z)) in Er. rewrite rev_involutive in Er. cbn in Er. congruence.
-  - assert (Hl : last t 0 = c).
-    { apply (f_equal (@rev Z)) in Er. rewrite rev_involutive in Er. cbn [rev] in Er. rewrite Er. apply last_last. }
-    replace (c =? z) with false in H by (symmetry; apply Z.eqb_neq; congruence).
-    destruct (Spalte t z) as [l| | |]; try discriminate. f_equal.
-    clear -H. revert H. generalize (split_ref z t). induction l as [|x l IH]; intros [|y l'] H; cbn in H; try discriminate; [reflexivity|].
-    apply andb_true_iff in H. destruct H as [H1 H2]. apply text_eqb_spec in H1. subst. f_equal. now apply IH.
-Qed.
-Lemma spalte_refuted : exists t z, t <> [] /\ Spalte t z <> Ok (split_ref z t).
-Proof. exists [97; 44], 44. split; [discriminate|]. vm_compute. discriminate. Qed.
-
-(* Spalte_Text: refuted; what holds on the bounded domain: without an occurrence of the separator text, [t] *)
-Definition chk_spalte_text (t s : text) : bool :=
-  if (len s <=? 1) || existsb (occ_b t s) (positions t s) then true
-  else match Spalte_Text t s with Ok l => list_eqb text_eqb l [t] | Err => true | _ => false end.
-Lemma spalte_text_bounded : forall t s, over abc t -> over abc s -> (length t <= 6)%nat -> (length s <= 3)%nat ->
-  1 < len s -> existsb (occ_b t s) (positions t s) = false -> forall l, Spalte_Text t s = Ok l -> l = [t].
-Proof.
-  intros t s Ht Hs Lt Ls H1 Hno l Hl.
-  pose proof (bounded2 abc 6 3 chk_spalte_text ltac:(vm_compute; reflexivity) t s Ht Hs Lt Ls) as H.
-  unfold chk_spalte_text in H. rewrite Hno, Hl in H.
-  replace (len s <=? 1) with false in H by (symmetry; apply Z.leb_gt; lia). cbn [orb] in H.
-  destruct l as [|x [|y l']]; cbn in H; try discriminate.
-  - apply andb_true_iff in H. destruct H as [H _]. apply text_eqb_spec in H. now subst.
-  - rewrite andb_false_r in H. discriminate.
-Qed.
-Lemma spalte_text_refuted : exists t s, Spalte_Text t s = Ok [[120]; [97; 98]] /\ t = [120] ++ s ++ [] ++ s ++ [].
-Proof. exists [120; 97; 98; 97; 98], [97; 98]. split; [vm_compute; reflexivity|reflexivity]. Qed.
-
-(* Finde_Subtext: refuted twice (equal lengths always give [1]; an occurrence at the last position is missed);
-   on the bounded domain every reported index is an occurrence when the lengths differ *)
-Definition chk_finde (t s : text) : bool :=
-  if (len t =? len s) || (len s =? 0) then true
-  else match Finde_Subtext t s with Ok l => forallb (fun i => (1 <=? i) && occ_b t s (Z.to_nat (i - 1))) l | Err => true | _ => false end.
-Lemma finde_subtext_bounded : forall t s, over abc t -> over abc s -> (length t <= 6)%nat -> (length s <= 3)%nat ->
-  s <> [] -> length t <> length s -> forall l, Finde_Subtext t s = Ok l -> forall i, In i l -> 1 <= i /\ occ_b t s (Z.to_nat (i - 1)) = true.
-Proof.
-  intros t s Ht Hs Lt Ls Hne Hlen l Hl i Hi.
-  pose proof (bounded2 abc 6 3 chk_finde ltac:(vm_compute; reflexivity) t s Ht Hs Lt Ls) as H.
-  unfold chk_finde in H. rewrite Hl in H.
-  replace (len t =? len s) with false in H by (symmetry; apply Z.eqb_neq; unfold len; lia).
-  replace (len s =? 0) with false in H by (symmetry; apply Z.eqb_neq; destruct s; [congruence|rewrite len_cons; pose proof (len_nonneg s); lia]).
-  cbn [orb] in H. rewrite forallb_forall in H. specialize (H i Hi). apply andb_true_iff in H. destruct H as [A B].
-  split; [now apply Z.leb_le|exact B].
-Qed.
-Lemma finde_subtext_refuted_gleichlang : exists t s, Finde_Subtext t s = Ok [1] /\ occ_b t s 0 = false.
-Proof. exists [97; 98], [120; 121]. split; vm_compute; reflexivity. Qed.
-Lemma finde_subtext_refuted_ende : exists t s, Finde_Subtext t s = Ok [1; 3] /\ occ_b t s 3 = true.
-Proof. exists [97; 98; 97; 97], [97]. split; vm_compute; reflexivity. Qed.
-
-(* Trim: refuted for one-letter texts; bounded: for every other text it strips both ends *)
-Definition chk_trim (t zs : text) : bool :=
-  match zs with
-  | [z] => if len t =? 1 then true else match Trim t z with Ok r => text_eqb r (strip_ref z t) | _ => false end
-  | _ => true
-  end.
-Lemma trim_bounded : forall t z, over abc t -> In z abc -> (length t <= 8)%nat -> length t <> 1%nat -> Trim t z = Ok (strip_ref z t).
-Proof.
-  intros t z Ht Hz Lt Hl.
-  pose proof (bounded2 abc 8 1 chk_trim ltac:(vm_compute; reflexivity) t [z] Ht ltac:(constructor; [exact Hz|constructor]) Lt ltac:(cbn; lia)) as H.
-  unfold chk_trim in H. replace (len t =? 1) with false in H by (symmetry; apply Z.eqb_neq; unfold len; lia).
-  destruct (Trim t z) as [r| | |]; try discriminate. apply text_eqb_spec in H. now subst.
-Qed.
-Lemma trim_refuted : exists t z, Trim t z = Ok [] /\ strip_ref z t = t /\ t <> [].
-Proof. exists [97], 120. split; [vm_compute; reflexivity|]. split; [reflexivity|discriminate]. Qed.
-
-(* Text_Anzahl_Text_Nicht_Überlappend counts the occurrences at multiples of the needle length *)
-Definition chk_aligned (t s : text) : bool :=
   match s, t with [], _ => true | _, [] => true | _, _ =>
-    match Text_Anzahl_Text_Nicht_Ueberlappend t s with Ok r => r =? aligned_count t s | _ => false end end.
-Lemma nicht_ueberlappend_bounded : forall t s, over abc t -> over abc s -> (length t <= 6)%nat -> (length s <= 3)%nat ->
-  s <> [] -> t <> [] -> Text_Anzahl_Text_Nicht_Ueberlappend t s = Ok (aligned_count t s).
+    match Text_Index_Von_Text t s with Ok r => r =? ref_index t s | _ => false end end.
+Lemma text_index_von_text_bounded : forall t s, over abc t -> over abc s -> (length t <= 7)%nat -> (length s <= 3)%nat ->
+  s <> [] -> t <> [] -> Text_Index_Von_Text t s = Ok (ref_index t s).
 Proof.
   intros t s Ht Hs Lt Ls Hs0 Ht0.
-  pose proof (bounded2 abc 6 3 chk_aligned ltac:(vm_compute; reflexivity) t s Ht Hs Lt Ls) as H.
-  unfold chk_aligned in H. destruct s; [congruence|]. destruct t; [congruence|].
-  destruct (Text_Anzahl_Text_Nicht_Ueberlappend _ _) as [r| | |]; try discriminate. apply Z.eqb_eq in H. now subst.
+  pose proof (bounded2 abc 7 3 chk_index ltac:(vm_compute; reflexivity) t s Ht Hs Lt Ls) as H.
+  unfold chk_index in H. destruct s; [congruence|]. destruct t; [congruence|].
+  destruct (Text_Index_Von_Text _ _) as [r| | |]; try discriminate. apply Z.eqb_eq in H. now subst.
+Qed.
+Lemma text_index_von_text_leer s : Text_Index_Von_Text [] s = Ok (-1).
+Proof. reflexivity. Qed.
+
+(* Spalte_Text: the pieces between the leftmost non-overlapping occurrences of the separator text *)
+Definition chk_spalte_text (t s : text) : bool :=
+  match t with [] => true | _ =>
+  if len s <=? 1 then true
+  else match Spalte_Text t s with Ok l => list_eqb text_eqb l (split_text_ref (length t + 1) s t []) | _ => false end end.
+Lemma spalte_text_bounded : forall t s, over abc t -> over abc s -> (length t <= 7)%nat -> (length s <= 3)%nat ->
+  t <> [] -> 1 < len s -> Spalte_Text t s = Ok (split_text_ref (length t + 1) s t []).
+Proof.
+  intros t s Ht Hs Lt Ls Ht0 H1.
+  pose proof (bounded2 abc 7 3 chk_spalte_text ltac:(vm_compute; reflexivity) t s Ht Hs Lt Ls) as H.
+  unfold chk_spalte_text in H. destruct t as [|c t']; [congruence|].
+  replace (len s <=? 1) with false in H by (symmetry; apply Z.leb_gt; lia).
+  destruct (Spalte_Text _ _) as [l| | |]; try discriminate. f_equal. now apply list_eqb_text.
+Qed.
+(* a separator of one letter is Spalte *)
+Lemma spalte_text_einzeln t c : Spalte_Text t [c] = Spalte t c.
+Proof. reflexivity. Qed.
+
+(* Finde_Subtext: the start positions of the leftmost non-overlapping occurrences *)
+Definition chk_finde (t s : text) : bool :=
+  match s, t with [], _ => true | _, [] => true | _, _ =>
+    match Finde_Subtext t s with Ok l => list_eqb Z.eqb l (finde_ref (length t + 1) s t 1) | _ => false end end.
+Lemma finde_subtext_bounded : forall t s, over abc t -> over abc s -> (length t <= 7)%nat -> (length s <= 3)%nat ->
+  s <> [] -> t <> [] -> Finde_Subtext t s = Ok (finde_ref (length t + 1) s t 1).
+Proof.
+  intros t s Ht Hs Lt Ls Hs0 Ht0.
+  pose proof (bounded2 abc 7 3 chk_finde ltac:(vm_compute; reflexivity) t s Ht Hs Lt Ls) as H.
+  unfold chk_finde in H. destruct s as [|c s']; [congruence|]. destruct t as [|d t']; [congruence|].
+  destruct (Finde_Subtext _ _) as [l| | |]; try discriminate. f_equal. now apply list_eqb_Z.
 Qed.
 
 (* Spalten_Spaltmenge_Text: on the bounded domain, the maximal runs of letters outside the set *)
@@ -769,7 +990,5 @@ Proof.
   intros t m Ht Hm Lt Lm Ht0 Hm0.
   pose proof (bounded2 abc 6 2 chk_fields ltac:(vm_compute; reflexivity) t m Ht Hm Lt Lm) as H.
   unfold chk_fields in H. destruct t as [|c t']; [congruence|]. destruct m as [|d m']; [congruence|].
-  destruct (Spalten_Spaltmenge_Text_Ref _ _) as [l| | |]; try discriminate. f_equal.
-  revert H. generalize (fields_ref (d :: m') (c :: t') []). clear. induction l as [|x l IH]; intros [|y l'] H; cbn in H; try discriminate; [reflexivity|].
-  apply andb_true_iff in H. destruct H as [H1 H2]. apply text_eqb_spec in H1. subst. f_equal. now apply IH.
+  destruct (Spalten_Spaltmenge_Text_Ref _ _) as [l| | |]; try discriminate. f_equal. now apply list_eqb_text.
 Qed.
